@@ -18,6 +18,9 @@ use ant_service_management::{NatDetectionStatus, NodeRegistry, NodeServiceData, 
 use common::{hex, unhex, Out, Rng};
 use std::panic::{catch_unwind, AssertUnwindSafe};
 
+#[path = "mgrparsers/extra.rs"]
+mod extra;
+
 fn s_of(h: &str) -> Option<String> {
     String::from_utf8(unhex(h)?).ok()
 }
@@ -123,7 +126,7 @@ fn exec(line: &str, tmp: &std::path::Path) -> (String, String) {
                     Err(_) => format!("len={len} err"),
                 }
             }
-            _ => "bad-op".into(),
+            other => extra::exec(other, tmp, &mut op).unwrap_or_else(|| "bad-op".into()),
         }
     }));
     (op, r.unwrap_or_else(|_| "panic".into()))
@@ -163,7 +166,7 @@ fn oracle(line: &str, res: &str, out: &mut Out) {
                 out.oracle_fail("increment-exact", line, &format!("got {res}, expected {want}"));
             }
         }
-        _ => {}
+        other => extra::oracle(other, res, line, out),
     }
 }
 
@@ -297,12 +300,37 @@ fn install_formatting_subscriber() {
         .try_init();
 }
 
+/// `common::parse_args` without its side effect of installing the process-wide tracing subscriber: here the
+/// subscriber must be ant-logging's own (see `extra::init_logging`), and only one can ever be installed.
+fn parse_args() -> common::Args {
+    let mut it = std::env::args().skip(1);
+    let mut a = common::Args { component: String::new(), seed: 1, n: 100, out: ".".into(), replay: None, extra: Default::default() };
+    while let Some(k) = it.next() {
+        let v = it.next().unwrap_or_default();
+        match k.as_str() {
+            "--seed" => a.seed = v.parse().expect("seed"),
+            "--n" => a.n = v.parse().expect("n"),
+            "--out" => a.out = v.into(),
+            "--replay" => a.replay = Some(v.into()),
+            other => {
+                a.extra.insert(other.trim_start_matches("--").to_string(), v);
+            }
+        }
+    }
+    a
+}
+
 fn main() {
-    let args = &common::parse_args();
+    let args = &parse_args();
     let mut out = Out::new(&args.out);
     std::panic::set_hook(Box::new(|_| {}));
-    install_formatting_subscriber();
     let tmp = tempfile::tempdir().expect("tempdir");
+    // the launchpad's data / config directories live under the scratch directory
+    std::env::set_var("XDG_DATA_HOME", tmp.path().join("data"));
+    // ant-logging's own subscriber (formats every event of every target through its LogFormatter into files under
+    // the scratch directory); the plain formatting subscriber is the fallback if that initialisation fails
+    extra::init_logging(&tmp.path().join("logs"));
+    install_formatting_subscriber();
     let lines: Vec<String> = if let Some(p) = &args.replay {
         common::read_lines(p)
     } else {
@@ -425,6 +453,7 @@ fn main() {
                 }
             }
         }
+        v.extend(extra::generate(&mut rng, args.n));
         v
     };
     for l in &lines {
